@@ -54,6 +54,7 @@ type Exec struct {
 	trace   []string // human-readable decision trace
 	W     *World // symbolic environment (db, coroutine mode, ...)
 	pcAsserted int
+	npinned    int
 	inputs []namedInput // harness inputs in creation order (for replay files)
 }
 
@@ -88,6 +89,10 @@ func (ex *Exec) goPanic(f string, a ...interface{}) *pathEnd {
 // ---------------------------------------------------------------- solver glue
 
 func (ex *Exec) syncPC() {
+	for ex.npinned < len(ex.tt.pinned) {
+		ex.pc = append(ex.pc, ex.tt.pinned[ex.npinned])
+		ex.npinned++
+	}
 	for ex.pcAsserted < len(ex.pc) {
 		ex.sol.Assert(ex.pc[ex.pcAsserted])
 		ex.pcAsserted++
